@@ -1,6 +1,7 @@
 package rules
 
 import (
+	"sort"
 	"fmt"
 	"go/constant"
 	"go/token"
@@ -25,6 +26,33 @@ func c19(c *Ctx) {
 	c19release(c)
 	c19go(c)
 	c19idsource(c)
+	c19storeUse(c)
+}
+
+// c19storeUse (R5): the lock touches its store only through the two scripts. Any other command issued on
+// rl.store (EXPIRE, DEL, SET …) acts on the key without the owner test the scripts perform atomically
+// (seed r3-C19-3: SetExpire re-armed the live key for whoever called it).
+func c19storeUse(c *Ctx) {
+	rule := "C19.R5"
+	m, ok := c.methodsVia("core/stores/redis", "RedisLock", "store", "core/stores/redis")
+	if !ok {
+		c.R.Undecided(rule, "core/stores/redis.RedisLock.store", "anchor resolves", "field RedisLock.store not found")
+		return
+	}
+	var bad []string
+	n := 0
+	for name, sites := range m {
+		n += len(sites)
+		if name != "ScriptRunCtx" && name != "ScriptRun" {
+			bad = append(bad, fmt.Sprintf("%s at %v", name, sites))
+		}
+	}
+	sort.Strings(bad)
+	if n < 2 {
+		c.R.Undecided(rule, "core/stores/redis.RedisLock.store", "the script runs are recognised", fmt.Sprintf("%d calls through rl.store", n))
+		return
+	}
+	c.R.Check(len(bad) == 0, rule, "core/stores/redis.RedisLock.store", "every command the lock sends to its store is a run of the lock or release script (which test the owner atomically); no method of RedisLock issues a bare command on the key", "-", "commands outside the scripts: "+fmt.Sprint(bad), nil, n)
 }
 
 func ownerTest(f luax.Fact) (isOwnerTest bool, owner bool) {
